@@ -40,7 +40,7 @@ ANCHORS = ['verify:get_file_metadata', 'recursiveloader:ManifestLoader.verify_an
            'recursiveloader:ManifestRecursiveLoader.load_unregistered_manifests',
            'util:throw_exception', 'compression:open_potentially_compressed_path']
 REQUIRED = ['verify:get_file_metadata', 'faults_fired', 'fp:verify', 'fp:verify-k',
-            'fp:update', 'priv_runs', 'strace_runs']
+            'fp:update', 'fp:cli-k', 'fp:cli-sub', 'priv_runs', 'strace_runs']
 ASSUMPTIONS = ['single faults (one injected error per execution)',
                'ENOENT, ENXIO, EOPNOTSUPP are excluded (statement / device-only, U9)',
                'Python-level failpoints cover os.open os.stat os.lstat os.fstat '
@@ -52,6 +52,7 @@ ASSUMPTIONS = ['single faults (one injected error per execution)',
 ERRNOS = [errno.EACCES, errno.EPERM, errno.EIO, errno.ENOMEM, errno.ELOOP,
           errno.ENOTDIR, errno.EMFILE, errno.ENFILE, errno.ESTALE, errno.EOVERFLOW]
 OPS = ['verify', 'verify-k', 'update']
+CLI_OPS = ['cli-k', 'cli-sub']      # through gemato.cli.main (discovery included)
 NTREES = {'quick': 24, 'thorough': 600}
 
 
@@ -88,10 +89,23 @@ def build_tree(rng, root):
     return case, layout, info
 
 
-def run_op(root, op):
+def run_op(root, op, sub=None):
     """-> ('ret', value) | ('exc', exception)"""
     from gemato.recursiveloader import ManifestRecursiveLoader
     try:
+        if op in CLI_OPS:
+            from gemato import cli as gcli
+            argv = ['gemato', 'verify', '-P']
+            if op == 'cli-k':
+                argv += ['-k', root]
+            else:
+                argv += [os.path.join(root, sub)]
+            try:
+                rc = gcli.main(argv)
+            except SystemExit as exc:
+                rc = 'exit'
+            # for the CLI 'True' means exit status 0
+            return ('ret', True if rc == 0 else rc)
         if op == 'verify':
             m = ManifestRecursiveLoader(os.path.join(root, 'Manifest'),
                                         verify_openpgp=False)
@@ -113,7 +127,7 @@ def judge_outcome(ctx, op, kind, val, fired, case, err):
     from gemato.exceptions import GematoException
     name = errno.errorcode.get(err, str(err))
     if kind == 'ret':
-        if op.startswith('verify') and val is True:
+        if (op.startswith('verify') or op in CLI_OPS) and val is True:
             ctx.violation('fault-swallowed:%s:%s' % (op, fired[0]),
                           '%s returned True although %s #%d (%s) failed with %s'
                           % (op, fired[0], fired[1], fired[2], name), case)
@@ -139,13 +153,21 @@ def run_fp(u, ctx):
         except RuntimeError:
             ctx.discarded('generator')
             return
-        for op in OPS:
+        subs = [d for d in info['mdirs'] if d]
+        sub = subs[0] if subs else None
+        for op in OPS + CLI_OPS:
+            if op == 'cli-sub' and sub is None:
+                continue
             snap0 = gtree.snapshot(root)
             with failpoints.Failpoints(root) as fp0:
-                kind, val = run_op(root, op)
+                kind, val = run_op(root, op, sub)
             counts = dict(fp0.counts)
             has_stray = bool(tcase['mutations'])
-            if not has_stray and (kind != 'ret' or (op.startswith('verify')
+            if op == 'cli-sub' and (kind != 'ret' or val is not True):
+                # (the sub-directory itself may hold the stray: fine, faults must
+                # still never turn the outcome into success)
+                pass
+            if not has_stray and (kind != 'ret' or (op != 'update'
                                                     and val is not True)):
                 ctx.discarded('baseline of %s not clean: %r' % (op, val))
                 continue
@@ -173,7 +195,7 @@ def run_fp(u, ctx):
                                 'gen_seed': ctx.seed}
                         with audit.Recording(root) as rec:
                             with failpoints.Failpoints(root, (klass, n), err) as fp:
-                                kind, val = run_op(root, op)
+                                kind, val = run_op(root, op, sub)
                         if fp.fired is None:
                             ctx.count('fault_not_reached')
                             continue
@@ -487,10 +509,11 @@ def replay(case, ctx):
         rng = common.rng_for(ctx.seed, ID, 'fp', case['tree'])
         with common.Scratch('vf-c06-') as d:
             root = os.path.join(d, 't')
-            build_tree(rng, root)
+            tc, lay, info = build_tree(rng, root)
+            subs = [d for d in info['mdirs'] if d]
             with failpoints.Failpoints(root, (case['class'], case['n']),
                                        case['errno']) as fp:
-                kind, val = run_op(root, case['op'])
+                kind, val = run_op(root, case['op'], subs[0] if subs else None)
             if fp.fired:
                 judge_outcome(ctx, case['op'], kind, val, fp.fired, case,
                               case['errno'])
